@@ -3,3 +3,6 @@ import LlirModel.Enc
 import LlirModel.Natsort
 import LlirModel.Digits
 import LlirModel.IntLit
+import LlirModel.Writer
+import LlirModel.Generated.Enums
+import LlirModel.Flags
